@@ -68,6 +68,9 @@ type Config struct {
 
 	// SkipValidate != "" : the provisioning oracle is not applicable (reason).
 	SkipValidate string `json:"skip_validate,omitempty"`
+	// ExactInts: integers far outside any sensible range that were written for integer options. The adapter may refuse
+	// such a Caddyfile; if it adapts, the JSON has to carry these very digits.
+	ExactInts []string `json:"exact_ints,omitempty"`
 	// Uses is the sorted multiset of (module, option) names used.
 	Uses []string `json:"-"`
 }
@@ -733,6 +736,11 @@ func (g *gen) handlerNamed(name string, depth int) *Node {
 		var ks []*Node
 		if g.p(0.7) {
 			a := g.cidrs(1, 3)
+			if g.p(0.35) {
+				// plain addresses (a subnet of one address each), of either family
+				a = g.ranges(1, 4)
+				u("allow_plain_address")
+			}
 			u("allow")
 			if g.p(0.06) {
 				a = append(a, poolPrivate)
@@ -793,16 +801,30 @@ func (g *gen) handlerNamed(name string, depth int) *Node {
 			add("latency", g.dur())
 		}
 		if pr(0.4) {
-			add("read_burst_size", g.pick("20000", "1", "4096", "0"))
+			add("read_burst_size", g.pick("20000", "1", "4096", "0", "2147483647"))
 		}
 		if pr(0.4) {
 			add("read_bytes_per_second", g.pick("100000", "1500.5", "1", "0.5"))
 		}
 		if pr(0.4) {
-			add("total_read_burst_size", g.pick("100000", "65536", "7"))
+			add("total_read_burst_size", g.pick("100000", "65536", "7", "2147483647"))
 		}
 		if pr(0.4) || len(ks) == 0 {
 			add("total_read_bytes_per_second", g.pick("500000", "2500.25", "10"))
+		}
+		if len(g.cfg.ExactInts) == 0 && g.p(0.015) {
+			// an absurdly large burst size (a typo, a unit mix-up): refused, or taken over digit by digit
+			v := g.pick("9007199254740993", "4611686018427387905", "9223372036854775807", "4294967297")
+			o := g.pick("read_burst_size", "total_read_burst_size")
+			kept := ks[:0]
+			for _, k := range ks {
+				if k.Name != o {
+					kept = append(kept, k)
+				}
+			}
+			ks = append(kept, opt(o, v))
+			u(o)
+			g.cfg.ExactInts = append(g.cfg.ExactInts, v)
 		}
 		n.Kids = g.shuffle(ks)
 	case "tls":
